@@ -385,6 +385,12 @@ func genKeys(seed uint64, tier string) *Case {
 	case 3:
 		sp.HashMode, sp.CollideN = "collide", 2+r.Intn(3)
 	}
+	switch keyCatalogue[sp.KeyType].name {
+	case "*int", "unsafe.Pointer", "chan int", "struct withIface", "any":
+		// hashes of pointer-bearing keys depend on addresses: the bucket layout
+		// is not the same in another process
+		sp.NonReplayable = true
+	}
 	sp.MinLen = []int{1, 2, 32}[r.Intn(3)]
 	sp.UseCache = r.Bool(0.3)
 	sp.Ops = 20 + r.Intn(150)
